@@ -285,6 +285,9 @@ def flags(run, p):
         (['t.py', '--wquiet', '--write', 'table'], ['table']), (['t.py', '-wquiet', '--write-all'], [None]),
         (['t.py', '--tagged'], []), (['t.py', '-1'], []), (['t.py', 'TestX', '--write', 'table'], ['table']),
         (['t.py', '--write'], 'raise'),
+        # the write-all letter followed (or preceded) by another single-dash argument of its own
+        (['t.py', '-W', '-v'], [None]), (['t.py', '-v', '-W'], [None]), (['t.py', '-W', '-1'], [None]), (['t.py', '-1', '-W'], [None]),
+        (['t.py', '-W', '-wquiet'], [None]), (['t.py', '-1', '-v'], []), (['t.py', '-W', '-q', 'TestX'], [None]),
     ]
     n = 0
     for argv, want in cases:
